@@ -47,3 +47,7 @@ pub fn vx_last_mut(v: &mut Vec<ProcessingBody>) -> (r: Option<&mut ProcessingBod
         old(v)@.len() > 0 ==> r is Some && *r->Some_0 == old(v)@.last() && final(v)@ == old(v)@.drop_last().push(*final(r->Some_0)),
         old(v)@.len() == 0 ==> r is None && final(v)@ == old(v)@,
 { unimplemented!() }
+impl Spanned<Ternary> {
+    #[verifier::external_body]
+    pub fn into_parts(self) -> (Ternary, Span) { unimplemented!() }
+}
